@@ -197,6 +197,7 @@ pub fn start_watchdog() {
         while i < w.len() {
             if now >= w[i].1 {
                 let pid = w[i].0;
+                eprintln!("{}", stall_diagnostics(pid));
                 TIMED_OUT.lock().unwrap().push(pid);
                 let _ = Command::new("kill").arg("-9").arg(pid.to_string()).status();
                 w.swap_remove(i);
@@ -205,6 +206,27 @@ pub fn start_watchdog() {
             }
         }
     });
+}
+
+/// what a run that hit the wall-clock cap was doing (printed before it is killed)
+fn stall_diagnostics(pid: u32) -> String {
+    let rd = |p: String| fs::read_to_string(p).unwrap_or_default();
+    let status = rd(format!("/proc/{}/status", pid));
+    let pick = |k: &str| status.lines().find(|l| l.starts_with(k)).unwrap_or("").replace('\t', " ");
+    let mut s = format!("STALL pid={} {} {} {} {}", pid, pick("State:"), pick("Threads:"), pick("VmRSS:"), pick("VmSize:"));
+    if let Ok(tasks) = fs::read_dir(format!("/proc/{}/task", pid)) {
+        for t in tasks.flatten().take(20) {
+            let tid = t.file_name().to_string_lossy().into_owned();
+            let wchan = rd(format!("/proc/{}/task/{}/wchan", pid, tid));
+            let stat = rd(format!("/proc/{}/task/{}/stat", pid, tid));
+            let f: Vec<&str> = stat.rsplit(") ").next().unwrap_or("").split_whitespace().collect();
+            // after the comm field: state=f[0], utime=f[11], stime=f[12]
+            s.push_str(&format!(" [tid={} st={} wchan={} utime={} stime={}]", tid, f.first().unwrap_or(&"?"), wchan.trim(), f.get(11).unwrap_or(&"?"), f.get(12).unwrap_or(&"?")));
+        }
+    }
+    let load = rd("/proc/loadavg".to_string());
+    s.push_str(&format!(" loadavg={}", load.trim()));
+    s
 }
 
 fn read_dir_map(dir: &Path) -> BTreeMap<String, Vec<u8>> {
